@@ -1,10 +1,10 @@
 package props
 
 import (
-	"sync"
-	_ "time/tzdata" // real time zones also where the system has no zoneinfo
 	"fmt"
+	"sync"
 	"time"
+	_ "time/tzdata" // real time zones also where the system has no zoneinfo
 
 	"github.com/pion/rtp"
 
